@@ -63,8 +63,8 @@ package preprocessor
 //@   requires [non-nil] URL != nil && (parentURL != nil ==> parentURL.parsed != nil)
 //@   requires [sentinels] ErrUnsupportedScheme != nil && ErrUnsupportedHost != nil
 //@   modifies URL.Raw, URL.parsed, mapof(goada.hrefTable())
-//@   ensures [gate-scheme] err == nil ==> goada.adaProtocol(URL.Raw) == "http:" || goada.adaProtocol(URL.Raw) == "https:" // C09: every accepted result is an absolute http or https URL
-//@   ensures [gate-host] err == nil ==> strings.Contains(goada.adaHostname(URL.Raw), ".") && goada.adaHostname(URL.Raw) != "localhost" && goada.adaHostname(URL.Raw) != "127.0.0.1" // C09: with a dotted, non-loopback host
+//@   ensures [gate-scheme] @C09,C05 err == nil ==> goada.adaProtocol(URL.Raw) == "http:" || goada.adaProtocol(URL.Raw) == "https:" // C09: every accepted result is an absolute http or https URL
+//@   ensures [gate-host] @C09,C05 err == nil ==> strings.Contains(goada.adaHostname(URL.Raw), ".") && goada.adaHostname(URL.Raw) != "localhost" && goada.adaHostname(URL.Raw) != "127.0.0.1" // C09: with a dotted, non-loopback host
 //@   ensures [nofragment] err == nil ==> !goada.adaHasHash(URL.Raw) // C09: and no fragment
 //@   let txt = strings.Trim(URL.Raw, `"'`)
 //@   let pp = parentURL.parsed
